@@ -294,7 +294,7 @@ def run_shard(shard, tier):
                 except Exception as e:
                     fails.append(("update_source-raises", f"{type(e).__name__}: {str(e)[:100]}"))
             note("ok" if not fails else "mismatch")
-            for cls, d in fails[:1]:
+            for cls, d in fails[:10]:
                 res["violations"].append({"kind": "stream", "label": label, "text": t, "what": f"[variant {label}] {cls}: {d}", "class": f"stream:{cls}"})
         res["samples"].append(shard[1][0][0])
         return res
@@ -322,7 +322,7 @@ def run_shard(shard, tier):
     res["distinct_nontrivial"] += 1
     fails = frame_check(before, after, footprint)
     note("ok" if not fails else "frame-violation")
-    for d in fails[:2]:
+    for d in fails[:10]:
         res["violations"].append({"kind": "edit", "model": name, "edit": e, "what": f"[{name}: {e}] {d}", "class": f"edit:{e}:{d[:40]}"})
     res["samples"].append(f"{name}: {e}")
     return res
